@@ -35,6 +35,12 @@ impl ThreadPool {
 
         ThreadPool { pool: pool.ok() }
     }
+
+    /// Return a pool which runs operations inline on the calling thread.
+    #[cfg(rten_verif)]
+    pub fn verif_inline() -> ThreadPool {
+        ThreadPool { pool: None }
+    }
 }
 
 /// Return the optimal number of cores to use for maximum performance.
@@ -74,6 +80,14 @@ fn optimal_core_count() -> u32 {
 ///
 /// [rayon]: https://github.com/rayon-rs/rayon
 pub fn thread_pool() -> &'static ThreadPool {
+    // When a deterministic scheduler controls the calling threads, nothing
+    // may migrate to a pool thread that the scheduler does not know about.
+    #[cfg(rten_verif)]
+    if crate::verif::FORCE_INLINE_THREAD_POOL.load(std::sync::atomic::Ordering::Relaxed) {
+        static INLINE_POOL: ThreadPool = ThreadPool { pool: None };
+        return &INLINE_POOL;
+    }
+
     static THREAD_POOL: OnceLock<ThreadPool> = OnceLock::new();
     THREAD_POOL.get_or_init(|| {
         let physical_cpus = optimal_core_count();
